@@ -310,3 +310,68 @@ class KindProbe(DefaultTransformVisitor):
     def _visit_effect(self, stmt, ctx): return 'EffectStmt'
     def _visit_return(self, stmt, ctx): return 'ReturnStmt'
     def _visit_pass(self, stmt, ctx): return 'PassStmt'
+
+
+# ----------------------------------------------------------------- the walkers on one program shape (contracts/c19x_walk.py)
+
+def _shape(func):
+    s0 = func.body.stmts[0]
+    s1 = func.body.stmts[1]
+    t0 = s0.ift.stmts[0]
+    w0 = s0.iff.stmts[0]
+    e0 = w0.body.stmts[0]
+    return s0, s1, t0, w0, e0
+
+
+def _shape_paths():
+    from fpy2.transform.path import FuncBody
+    p0 = FuncBody().stmt(0)
+    p1 = FuncBody().stmt(1)
+    pt = p0.block('ift').stmt(0)
+    pw = p0.block('iff').stmt(0)
+    pe = pw.block('body').stmt(0)
+    return p0, p1, pt, pw, pe
+
+
+def sp_eq(a, b):
+    """equality of two StmtPaths (frozen dataclass: componentwise)"""
+    return a.parent == b.parent and a.index == b.index
+
+
+def walk_stmts_shape_clauses(func, got):
+    s0, s1, t0, w0, e0 = _shape(func)
+    p0, p1, pt, pw, pe = _shape_paths()
+    want = [(p0, s0), (pt, t0), (pw, w0), (pe, e0), (p1, s1)]
+    out = {'count': len(got) == len(want)}
+    for i in range(len(want)):
+        out['stmt_' + str(i)] = (sp_eq(got[i][0], want[i][0]) and same_obj(got[i][1], want[i][1])) if i < len(got) else False
+    return out
+
+
+def walk_exprs_shape_clauses(func, got):
+    s0, s1, t0, w0, e0 = _shape(func)
+    p0, p1, pt, pw, pe = _shape_paths()
+    # (statement path, depth below the statement, leaf field, leaf index, expression)
+    want = [
+        (p0, 1, 'cond', None, s0.cond),
+        (p0, 2, 'args', 0, s0.cond.args[0]),
+        (p0, 2, 'args', 1, s0.cond.args[1]),
+        (pt, 1, 'indices', 0, t0.indices[0]),
+        (pt, 1, 'indices', 1, t0.indices[1]),
+        (pt, 1, 'expr', None, t0.expr),
+        (pw, 1, 'cond', None, w0.cond),
+        (pe, 1, 'expr', None, e0.expr),
+        (p1, 1, 'expr', None, s1.expr),
+    ]
+    out = {'count': len(got) == len(want)}
+    for i in range(len(want)):
+        if i < len(got):
+            path, e = got[i]
+            sp, depth, field, index, we = want[i]
+            out['expr_' + str(i)] = same_obj(e, we)
+            out['path_' + str(i)] = (path.field == field and path.index == index and sp_eq(path.stmt(), sp)
+                                     and (sp_eq(path.parent, sp) if depth == 1 else
+                                          (path.parent.field == 'cond' and path.parent.index is None and sp_eq(path.parent.parent, sp))))
+        else:
+            out['expr_' + str(i)] = False
+    return out
